@@ -994,7 +994,10 @@ def cmp_compile_vs_run(c, segs, who):
     bad = []
     rt = [t for t in real_tests(c) if t[2] != 'SKIPPED']
     if len(rt) != len(segs):
-        return ['%s: %d tests at compile time, %d segments at run time' % (who, len(rt), len(segs))]
+        bad.append('%s: %d shadow blocks reported at compile time, %d run at run time; nanoc rc=%s, last block reported: %s, stderr tail %r' % (
+            who, len(rt), len(segs), c.r_rc, rt[-1][0] if rt else None, c.r_stderr[-120:]))
+        if len(rt) > len(segs):
+            return bad
     for (name, text, status, nfail), (rtext, truths) in zip(rt, segs):
         if text != rtext:
             bad.append('%s: test %s prints %r at compile time, %r at run time' % (who, name, text[:200], rtext[:200]))
@@ -1225,4 +1228,174 @@ def flag_family():
         c = hand_case('flags-%d' % (b0 // FLAG_PER_PROGRAM), dict(globals=[], fns=fns, main=0), shadows, order=order)
         c.tag, c.flag_labels = 'flags', labels
         cases.append(c)
+    return cases
+
+
+# ------------------------------------------------------------------------------------------ deterministic family: operand evaluation
+def order_family(open_keys=()):
+    """deterministic (seed-independent) cases for the evaluation-order facts the specification fixes:
+      * and / or evaluate the right operand only when the left one does not decide: right operands that print (helper), that recurse
+        guarded by the left operand (eager evaluation never ends), that would stop the program if evaluated (out-of-range at, failing
+        assert in a helper, division by zero -- the evaluator reports that one on stderr), in every position an and/or can stand (let
+        initialiser, if / while condition, assert argument, call argument, return value, and-in-or / or-in-and, cond tests)
+      * operands of a binary operator left to right with effects in both; call arguments in order; array literal elements in order
+        (native: open finding lang:arg-order -- those constructs sit in a program of their own whose native comparison is exempt
+        while the finding is open; the evaluator is judged against the reference); cond tests in order, only the chosen branch
+    Every assertion is true in the language.  (A right operand that ASSIGNS cannot be written: `set` is a statement and a function
+    cannot write its caller's variables.)"""
+    NUM = lambda z: ('num', z)
+    V = lambda x: ('var', x)
+    B_ = lambda b: ('bool', b)
+    P = lambda e: ('print', True, e)
+    g = Names(1)
+    # helpers
+    side, sv = g.fresh(), g.fresh()          # prints v, returns true
+    sidef, sfv = g.fresh(), g.fresh()        # prints v, returns false
+    sidei, siv = g.fresh(), g.fresh()        # prints v, returns v
+    hfail, hv = g.fresh(), g.fresh()         # failing assertion inside, returns true
+    rec_or, rn = g.fresh(), g.fresh()
+    rec_and, rn2 = g.fresh(), g.fresh()
+    add3, a1, a2, a3 = g.fresh(), g.fresh(), g.fresh(), g.fresh()
+    idb, ib = g.fresh(), g.fresh()
+    H = [dict(name=side, params=[(sv, 'int')], ret='bool', effect=True, body=seq([P(V(sv)), ('ret', B_(True))])),
+         dict(name=sidef, params=[(sfv, 'int')], ret='bool', effect=True, body=seq([P(V(sfv)), ('ret', B_(False))])),
+         dict(name=sidei, params=[(siv, 'int')], ret='int', effect=True, body=seq([P(V(siv)), ('ret', V(siv))])),
+         dict(name=hfail, params=[(hv, 'int')], ret='bool', effect=True, body=seq([('assert', ('bin', 'eq', V(hv), NUM(0))), ('ret', B_(True))])),
+         # the recursion is guarded by the LEFT operand: evaluating the right one eagerly never ends
+         dict(name=rec_or, params=[(rn, 'int')], ret='bool', effect=True,
+              body=seq([P(V(rn)), ('ret', ('bin', 'or', ('bin', 'eq', V(rn), NUM(0)), ('call', rec_or, [('bin', 'sub', V(rn), NUM(1))])))])),
+         dict(name=rec_and, params=[(rn2, 'int')], ret='bool', effect=True,
+              body=seq([P(V(rn2)), ('ret', ('bin', 'and', ('bin', 'ne', V(rn2), NUM(0)), ('call', rec_and, [('bin', 'sub', V(rn2), NUM(1))])))])),
+         dict(name=add3, params=[(a1, 'int'), (a2, 'int'), (a3, 'int')], ret='int', effect=False,
+              body=('ret', ('bin', 'add', V(a1), ('bin', 'add', ('bin', 'mul', V(a2), NUM(10)), ('bin', 'mul', V(a3), NUM(100)))))),
+         dict(name=idb, params=[(ib, 'bool')], ret='bool', effect=False, body=('ret', V(ib)))]
+    HS = {side: [('assert', ('call', side, [NUM(1)]))], sidef: [('assert', ('un', 'not', ('call', sidef, [NUM(1)])))],
+          sidei: [('assert', ('bin', 'eq', ('call', sidei, [NUM(1)]), NUM(1)))], hfail: [('assert', ('call', hfail, [NUM(0)]))],
+          rec_or: [('assert', ('call', rec_or, [NUM(3)]))], rec_and: [('assert', ('un', 'not', ('call', rec_and, [NUM(3)])))],
+          add3: [('assert', ('bin', 'eq', ('call', add3, [NUM(1), NUM(2), NUM(3)]), NUM(321)))], idb: [('assert', ('call', idb, [B_(True)]))]}
+
+    def truth(op, l, r):
+        return (l and r) if op == 'and' else (l or r)
+
+    constructs = []      # (label, params, ret, body builder(param vars) , shadow stmts builder(fname, r))
+    tagc = [0]
+
+    def right_of(kind, l, op, lp, zp, ap):
+        """right operand expression and its value (None: must not be evaluated)"""
+        tagc[0] += 1
+        t = 500 + tagc[0]
+        if kind == 'print-true':
+            return ('call', side, [NUM(t)]), True
+        if kind == 'print-false':
+            return ('call', sidef, [NUM(t)]), False
+        if kind == 'oob':
+            return ('bin', 'eq', ('at', V(ap), NUM(5)), NUM(0)), None
+        if kind == 'assert-helper':
+            return ('call', hfail, [NUM(1)]), None
+        if kind == 'div-zero':
+            return ('bin', 'eq', ('bin', 'div', NUM(10), V(zp)), NUM(0)), None
+        raise ValueError(kind)
+
+    def mk(label, op, l, kind, position):
+        f, lp, zp, ap, x, c_ = g.fresh(), g.fresh(), g.fresh(), g.fresh(), g.fresh(), g.fresh()
+        R, rv = right_of(kind, l, op, lp, zp, ap)
+        E = ('bin', op, V(lp), R)
+        decided = (op == 'and' and not l) or (op == 'or' and l)
+        val = truth(op, l, True if rv is None else rv)
+        params = [(lp, 'bool'), (zp, 'int'), (ap, 'arr')]
+        args = [B_(l), NUM(0), ('arr', [NUM(1), NUM(2), NUM(3)])]
+        ret = 'int'
+        if position == 'let':
+            body = [('let', False, x, 'bool', E), P(V(x)), ('ret', NUM(1))]
+        elif position == 'if':
+            body = [('if', E, P(NUM(1)), P(NUM(0))), ('ret', NUM(1))]
+        elif position == 'while':
+            # the left operand is the loop test: true for c = 0, 1 (the right one runs, once each), false at c = 2 (it must not)
+            if op == 'and':
+                cond = ('bin', 'and', ('bin', 'lt', V(c_), NUM(2)), ('call', side, [V(c_)]))
+            else:
+                cond = ('un', 'not', ('bin', 'or', ('bin', 'ge', V(c_), NUM(2)), ('call', sidef, [V(c_)])))
+            body = [('let', True, c_, 'int', NUM(0)), ('while', cond, ('set', c_, ('bin', 'add', V(c_), NUM(1)))), P(V(c_)), ('ret', NUM(1))]
+        elif position == 'assert':
+            body = [('assert', ('bin', 'eq', E, B_(val))), P(NUM(7)), ('ret', NUM(1))]
+        elif position == 'call-arg':
+            body = [P(('call', idb, [E])), ('ret', NUM(1))]
+        elif position == 'return':
+            ret = 'bool'
+            body = [('ret', E)]
+        elif position == 'and-in-or':
+            body = [P(('bin', 'or', ('bin', 'and', V(lp), R), ('call', side, [NUM(900 + tagc[0])]))), ('ret', NUM(1))]
+        elif position == 'or-in-and':
+            body = [P(('bin', 'and', ('bin', 'or', V(lp), R), ('call', side, [NUM(900 + tagc[0])]))), ('ret', NUM(1))]
+        elif position == 'cond-test':
+            body = [P(('cond', E, NUM(10), ('cond', ('call', sidef, [NUM(900 + tagc[0])]), NUM(20), NUM(30)))), ('ret', NUM(1))]
+        else:
+            raise ValueError(position)
+        r = g.fresh()
+        exp = B_(val) if ret == 'bool' else NUM(1)
+        sh = [('let', False, r, ret, ('call', f, args)), P(V(r)), ('assert', ('bin', 'eq', V(r), exp))]
+        constructs.append((label, dict(name=f, params=params, ret=ret, body=seq(body), effect=True), sh, False))
+
+    POS = ['let', 'if', 'while', 'assert', 'call-arg', 'return', 'and-in-or', 'or-in-and', 'cond-test']
+    for op in ('and', 'or'):
+        for l in (True, False):
+            for position in POS:
+                kind = 'print-true' if (len(constructs) % 2 == 0) else 'print-false'
+                mk('%s/left-%s/%s/%s' % (op, l, kind, position), op, l, kind, position)
+        ldec = (op == 'or')            # the left value that decides
+        for kind in ('oob', 'assert-helper', 'div-zero'):
+            for position in ('let', 'if', 'return', 'call-arg'):
+                mk('%s/left-decides/%s/%s' % (op, kind, position), op, ldec, kind, position)
+    # guarded recursion, called from a shadow block
+    for nm, fnm, val in (('rec-or', rec_or, True), ('rec-and', rec_and, False)):
+        f, r = g.fresh(), g.fresh()
+        constructs.append(('%s/guarded-recursion' % nm, dict(name=f, params=[], ret='bool', effect=True, body=('ret', ('call', fnm, [NUM(4)]))),
+                           [('let', False, r, 'bool', ('call', f, [])), P(V(r)), ('assert', ('bin', 'eq', V(r), B_(val)))], False))
+    # cond: tests in order, only the chosen branch
+    f, r = g.fresh(), g.fresh()
+    constructs.append(('cond/tests-in-order', dict(name=f, params=[], ret='int', effect=True,
+                       body=('ret', ('cond', ('call', sidef, [NUM(1)]), ('call', sidei, [NUM(10)]),
+                                     ('cond', ('call', side, [NUM(2)]), ('call', sidei, [NUM(20)]), ('call', sidei, [NUM(30)]))))),
+                       [('let', False, r, 'int', ('call', f, [])), P(V(r)), ('assert', ('bin', 'eq', V(r), NUM(20)))], False))
+    # several effects in one expression: left to right (native comparison exempt while lang:arg-order is open)
+    for nm, e, val in (
+            ('binop-add/effects-in-both', ('bin', 'add', ('call', sidei, [NUM(1)]), ('call', sidei, [NUM(2)])), 3),
+            ('binop-sub/effects-in-both', ('bin', 'sub', ('call', sidei, [NUM(5)]), ('call', sidei, [NUM(2)])), 3),
+            ('binop-mul-nested/effects', ('bin', 'mul', ('bin', 'add', ('call', sidei, [NUM(1)]), ('call', sidei, [NUM(2)])), ('call', sidei, [NUM(3)])), 9),
+            ('call-args/in-order', ('call', add3, [('call', sidei, [NUM(1)]), ('call', sidei, [NUM(2)]), ('call', sidei, [NUM(3)])]), 321),
+            ('call-args/nested-calls', ('call', add3, [('call', sidei, [NUM(1)]), ('call', add3, [('call', sidei, [NUM(2)]), ('call', sidei, [NUM(3)]), NUM(0)]), ('call', sidei, [NUM(4)])]), 1 + 320 + 400),
+            ('array-literal/elements-in-order', ('len', ('arr', [('call', sidei, [NUM(1)]), ('call', sidei, [NUM(2)]), ('call', sidei, [NUM(3)])])), 3)):
+        f, r = g.fresh(), g.fresh()
+        constructs.append((nm, dict(name=f, params=[], ret='int', effect=True, body=('ret', e)),
+                           [('let', False, r, 'int', ('call', f, [])), P(V(r)), ('assert', ('bin', 'eq', V(r), NUM(val)))], True))
+    cmpl = ('bin', 'lt', ('call', sidei, [NUM(1)]), ('call', sidei, [NUM(2)]))
+    f, r = g.fresh(), g.fresh()
+    constructs.append(('binop-lt/effects-in-both', dict(name=f, params=[], ret='bool', effect=True, body=('ret', cmpl)),
+                       [('let', False, r, 'bool', ('call', f, [])), P(V(r)), ('assert', ('bin', 'eq', V(r), B_(True)))], True))
+
+    def build(cid, items, exempt, with_rec=False):
+        # the guarded-recursion helpers live in a program of their own: evaluated eagerly they never return, which would hide every
+        # other construct of the program behind one crash
+        hs = [h for h in H if with_rec or h['name'] not in (rec_or, rec_and)]
+        fns = hs + [fd for (_, fd, _, _) in items] + [dict(name=0, params=[], ret='int', body=('ret', NUM(0)), effect=True)]
+        shadows = {h['name']: HS[h['name']] for h in hs}
+        order = [h['name'] for h in hs]
+        labels = {}
+        for (label, fd, sh, _) in items:
+            shadows[fd['name']] = sh
+            order.append(fd['name'])
+            labels[fd['name']] = label
+        shadows[0] = [('assert', B_(True))]
+        order.append(0)
+        c = hand_case(cid, dict(globals=[], fns=fns, main=0), shadows, order=order)
+        c.tag, c.order_labels, c.native_exempt, c.timeout = 'order', labels, exempt, 25
+        return c
+
+    recs = [x for x in constructs if x[0].endswith('/guarded-recursion')]
+    plain = [x for x in constructs if not x[3] and x not in recs]
+    multi = [x for x in constructs if x[3]]
+    cases = [build('order-guarded-recursion', recs, False, with_rec=True)]
+    for i in range(0, len(plain), 32):
+        cases.append(build('order-%d' % (i // 32), plain[i:i + 32], False))
+    cases.append(build('order-multi-effect', multi, 'lang:arg-order' in open_keys))
     return cases
